@@ -13,7 +13,7 @@ package main
 //
 // Op program (hex, every byte string is a program): opcode c, c%4 = 0 write,
 // 1 writeByte(c), 2 writeString, 3 reset; write/writeString are followed by a 3-byte
-// big-endian length (missing bytes = 0); content byte j of the op at program offset p
+// big-endian length (missing bytes = 0, taken mod 2^21); content byte j of the op at program offset p
 // is (13p + j) mod 256.
 
 import (
@@ -63,6 +63,7 @@ func c12Parse(prog []byte) []c12Op {
 					i++
 				}
 			}
+			n &= 1<<21 - 1
 			d := make([]byte, n)
 			for j := range d {
 				d[j] = byte(13*p + j)
@@ -698,6 +699,7 @@ func c12Bucket(n int) string {
 }
 
 func runC12(r *Rng, n int) {
+	c12KnownWitness()
 	for i := 0; i < n; i++ {
 		switch {
 		case i%5 < 2: // op programs on the buffer
